@@ -196,6 +196,7 @@ int64_t cmb_resource_acquire(struct cmb_resource *rp)
     cmb_logger_info(stdout, "Acquiring resource %s", rbp->name);
 
     struct cmb_process *pp = cmb_process_current();
+    const double entry_time = cmb_time();
     while (true) {
         if (rp->holder == NULL) {
             /* Easy, grab it */
@@ -206,9 +207,10 @@ int64_t cmb_resource_acquire(struct cmb_resource *rp)
         }
 
         /* Wait at the front door until resource becomes available */
-        const int64_t ret = cmb_resourceguard_wait(&(rp->guard),
-                                                   is_available,
-                                                   NULL);
+        const int64_t ret = cmi_resourceguard_wait_since(&(rp->guard),
+                                                         is_available,
+                                                         NULL,
+                                                         entry_time);
 
         /*
          * Now we got past the front door, or perhaps thrown out by the guard.
